@@ -11,8 +11,9 @@ import time
 
 VERIF = os.path.dirname(os.path.dirname(os.path.abspath(__file__)))
 REPO = os.environ.get("VERIF_REPO", "/repo")
-WORK = os.path.join(VERIF, "work")
-COQ = os.path.join(VERIF, "coq")
+WORK = os.environ.get("VERIF_WORK") or os.path.join(VERIF, "work")
+COQ = os.environ.get("VERIF_COQ") or os.path.join(VERIF, "coq")
+EVIDENCE = os.environ.get("VERIF_EVIDENCE_DIR") or os.path.join(VERIF, "evidence")
 OVERLAY_SRC = os.path.join(VERIF, "harness", "overlay")
 
 GOENV = dict(os.environ, GOFLAGS="-mod=mod", GOPROXY="off", GOSUMDB="off", GOTOOLCHAIN="local",
@@ -260,7 +261,7 @@ def load_findings():
 # evidence
 
 def write_evidence(pid, tier, seed, coverage, wall_s, violations, assumptions, level="proof"):
-    os.makedirs(os.path.join(VERIF, "evidence"), exist_ok=True)
+    os.makedirs(EVIDENCE, exist_ok=True)
     head, dig, dirty = repo_digest()
     coverage = dict(coverage)
     coverage["repo_head"] = head
@@ -276,7 +277,7 @@ def write_evidence(pid, tier, seed, coverage, wall_s, violations, assumptions, l
         "wall_s": round(wall_s, 2),
         "violations": int(violations),
     }
-    path = os.path.join(VERIF, "evidence", pid + ".json")
+    path = os.path.join(EVIDENCE, pid + ".json")
     tmp = path + ".tmp.%d" % os.getpid()
     json.dump(ev, open(tmp, "w"), indent=1, sort_keys=True)
     os.replace(tmp, path)
